@@ -1,0 +1,85 @@
+//go:build verif
+
+package goja
+
+// White-box accessors for verification property C08 (abrupt exits run each pending finally and
+// iterator close exactly once, in order).  Add-only; compiled only with -tags verif.
+
+import (
+	"fmt"
+	"strings"
+)
+
+// VerifC08DumpProgram compiles src (non-strict, global code) and returns one line per bytecode
+// instruction of the function named fn ("" = the top-level program):
+//
+//	<pc> <Go type name of the instruction> <operands>
+//
+// Operands are printed only for the control-transfer instructions the C08 model knows:
+// relative jump offsets (jump, jneP, jeqP, jne, jeq, iterNext, enumNext) and the catch/finally
+// offsets of `try`.  leaveBlock prints nothing (its stack/stash sizes are not control flow).
+func VerifC08DumpProgram(src, fn string) (lines []string, err error) {
+	p, err := Compile("c08", src, false)
+	if err != nil {
+		return nil, err
+	}
+	target := p
+	if fn != "" {
+		target = verifC08FindFunc(p, fn)
+		if target == nil {
+			return nil, fmt.Errorf("function %q not found", fn)
+		}
+	}
+	for pc, ins := range target.code {
+		name := fmt.Sprintf("%T", ins)
+		name = strings.TrimPrefix(name, "*")
+		name = strings.TrimPrefix(name, "goja.")
+		name = strings.TrimPrefix(name, "_")
+		ops := ""
+		switch i := ins.(type) {
+		case jump:
+			ops = fmt.Sprintf(" %d", int32(i))
+		case jneP:
+			ops = fmt.Sprintf(" %d", int32(i))
+		case jeqP:
+			ops = fmt.Sprintf(" %d", int32(i))
+		case jne:
+			ops = fmt.Sprintf(" %d", int32(i))
+		case jeq:
+			ops = fmt.Sprintf(" %d", int32(i))
+		case iterNext:
+			ops = fmt.Sprintf(" %d", int32(i))
+		case enumNext:
+			ops = fmt.Sprintf(" %d", int32(i))
+		case try:
+			ops = fmt.Sprintf(" %d %d", i.catchOffset, i.finallyOffset)
+		}
+		lines = append(lines, fmt.Sprintf("%d %s%s", pc, name, ops))
+	}
+	return lines, nil
+}
+
+func verifC08FindFunc(p *Program, fn string) *Program {
+	for _, ins := range p.code {
+		if f, ok := ins.(newFuncInstruction); ok {
+			prg := f.getPrg()
+			if prg == nil {
+				continue
+			}
+			if string(prg.funcName) == fn {
+				return prg
+			}
+			if r := verifC08FindFunc(prg, fn); r != nil {
+				return r
+			}
+		}
+	}
+	return nil
+}
+
+// VerifC08Stacks reports the lengths of the VM's try / iterator / reference / call stacks
+// (all must be back to their entry values when a top-level call returns to Go).
+func VerifC08Stacks(r *Runtime) (try, iter, ref, call int) {
+	vm := r.vm
+	return len(vm.tryStack), len(vm.iterStack), len(vm.refStack), len(vm.callStack)
+}
